@@ -240,6 +240,9 @@ func (w *World) outcome() *Outcome {
 	o.OrderSHA = fmt.Sprintf("%x", h[:8])
 	if w.c.WantEvents {
 		o.Events = lines
+		if w.sys != nil {
+			o.SeamEvents = w.sys.Events()
+		}
 	}
 	if !w.t0.IsZero() {
 		o.SimNs = int64(time.Since(w.t0))
@@ -441,7 +444,10 @@ func (w *World) checkStepExpect(path string, st *Step, err error) {
 	if st.MustSucceed && err != nil {
 		w.violate("unexpected-error", "step %s (%s %s) failed: %v", path, st.Op, st.ID+st.Of, err)
 	}
-	if st.MustFail && err == nil {
+	if st.MustFail && err == nil && w.userFaultsFired() == 0 {
+		// The planned user fault never fired: the case is vacuous, not a violation.
+		w.probe("vacuous-mustfail")
+	} else if st.MustFail && err == nil {
 		w.violate("missing-error", "step %s (%s %s) succeeded but had to fail", path, st.Op, st.ID+st.Of)
 	}
 	if err != nil && st.ErrContains != "" && !strings.Contains(err.Error(), st.ErrContains) {
@@ -530,6 +536,16 @@ func (w *World) record(ob interp.Obs) {
 	w.mu.Lock()
 	w.obs = append(w.obs, ob)
 	w.mu.Unlock()
+}
+
+func (w *World) userFaultsFired() int {
+	w.mu.Lock()
+	defer w.mu.Unlock()
+	n := 0
+	for _, v := range w.ufired {
+		n += v
+	}
+	return n
 }
 
 // userPoint is called from user functions.
